@@ -193,7 +193,9 @@ func (e *Emitter) emitScriptStatement(scriptStmt *ast.ScriptStatement, textLabel
 			// current chunk, we only finalize the chunk when these commands are the last
 			// command of the current chunk. Otherwise, it would would cause the elimination
 			// of any forthcoming labels in this chunk's statements.
-			if i == len(curChunk.statements)-1 && (commandStmt.Name.Value == "end" || commandStmt.Name.Value == "return") {
+			// A trailing "end"/"return" written with arguments is kept as an ordinary command line,
+			// because the chunk terminator is rendered without arguments.
+			if i == len(curChunk.statements)-1 && len(commandStmt.Args) == 0 && (commandStmt.Name.Value == "end" || commandStmt.Name.Value == "return") {
 				completeChunk := &chunk{
 					id:               curChunk.id,
 					returnID:         -1,
